@@ -37,7 +37,7 @@ def g_vps(enc, vps) -> str:
 
 
 def is_mutable(x):
-  return daglish.is_memoizable(x) and daglish.is_traversable_type(type(x))
+  return common.own_memoizable(x) and daglish.is_traversable_type(type(x))
 
 
 def independent_paths(root):
@@ -75,7 +75,7 @@ def check_sound(vps, root, what, problems):
       problems.append((f"{what}: follow_path raised {type(e).__name__} on {daglish.path_str(p)!r}",
                        "follow-raises", p))
       return
-    if got is not v and not (not daglish.is_memoizable(v) and got == v and type(got) is type(v)):
+    if got is not v and not (not common.own_memoizable(v) and got == v and type(got) is type(v)):
       problems.append((f"{what}: follow_path(root, {daglish.path_str(p)!r}) is not the reported value",
                        "unsound", p))
       return
@@ -110,7 +110,7 @@ def one_case(rng, res, intern, stream, root, label):
   daglish_legacy.traverse_with_path(tw, root)
   all_paths_obs = []
   def visit(value, state):
-    if daglish.is_memoizable(value):
+    if common.own_memoizable(value):
       all_paths_obs.append((value, state.current_path, state.get_all_paths()))
     else:
       all_paths_obs.append((value, state.current_path, state.get_all_paths()))
@@ -140,13 +140,13 @@ def one_case(rng, res, intern, stream, root, label):
     problems.append(("legacy.traverse_with_path does not report every path exactly once", "incomplete", None))
   mutable_ids = {id(v) for _, v in truth if is_mutable(v)}
   for name, vps in (("iterate(memoized)", memo), ("iterate(memoized, no internables)", memo_ni)):
-    seen = collections.Counter(id(v) for v, _ in vps if is_mutable(v) and not daglish.is_internable(v))
-    want = {i for i in mutable_ids if not daglish.is_internable(c02_obj(truth, i))}
+    seen = collections.Counter(id(v) for v, _ in vps if is_mutable(v) and not common.own_internable(v))
+    want = {i for i in mutable_ids if not common.own_internable(c02_obj(truth, i))}
     if set(seen) != want or any(c != 1 for c in seen.values()):
       problems.append((f"{name} does not visit every distinct mutable object exactly once", "memo", None))
   truth_by_id = collections.defaultdict(list)
   for p, v in truth:
-    if daglish.is_memoizable(v):
+    if common.own_memoizable(v):
       truth_by_id[id(v)].append(daglish.path_str(p))
   for name, table in (("collect_paths_by_id", by_id), ("legacy.collect_paths_by_id", legacy_by_id)):
     for i, want in truth_by_id.items():
@@ -156,7 +156,7 @@ def one_case(rng, res, intern, stream, root, label):
         break
   for v, cur, paths in all_paths_obs:
     got = sorted(daglish.path_str(p) for p in paths)
-    if daglish.is_memoizable(v):
+    if common.own_memoizable(v):
       want = sorted(truth_by_id[id(v)])
     else:
       want = sorted(daglish.path_str(p) for p, x in truth
@@ -164,13 +164,13 @@ def one_case(rng, res, intern, stream, root, label):
                     daglish.follow_path(root, p[:-1]) is daglish.follow_path(root, cur[:-1])) \
           if cur else [""]
       # a leaf: every path through the same parent object
-      if cur and not daglish.is_memoizable(daglish.follow_path(root, cur[:-1])):
+      if cur and not common.own_memoizable(daglish.follow_path(root, cur[:-1])):
         continue  # parent is itself a leaf-like internable; skip (covered by soundness)
     if got != want:
       problems.append((f"State.get_all_paths at {daglish.path_str(cur)!r}: {got} != {want}", "allpaths", cur))
       break
   for v, cur, paths in legacy_all:
-    if daglish.is_memoizable(v):
+    if common.own_memoizable(v):
       if sorted(daglish.path_str(p) for p in paths) != sorted(truth_by_id[id(v)]):
         problems.append(("legacy.traverse_with_all_paths: wrong path set", "allpaths", cur))
         break
@@ -184,8 +184,8 @@ def one_case(rng, res, intern, stream, root, label):
     if kind in ("follow-raises", "unsound") and p is not None and kwarg_posonly_on_path(root, p):
       key = "C08/path-through-kwarg-named-like-posonly"
     res.failures.append(Failure(key, f"C08 {label}: {text}", {"label": label, "root": repr(root)[:1500]}))
-  shared = len(truth) > len({id(v) for _, v in truth if daglish.is_memoizable(v)}) + sum(
-      1 for _, v in truth if not daglish.is_memoizable(v))
+  shared = len(truth) > len({id(v) for _, v in truth if common.own_memoizable(v)}) + sum(
+      1 for _, v in truth if not common.own_memoizable(v))
   if shared:
     res.nontrivial({"h": in_heap, "r": root_ref})
   res.count("paths", len(truth))
@@ -198,7 +198,7 @@ def one_case(rng, res, intern, stream, root, label):
       paths_items.append(g_pair(g_nat(idx), g_list([g_path(enc, p) for p in by_id[obj_id]])))
   try:
     term = ("(mkcase " + enc.sigenv() + " " + in_heap + " " + root_ref + " " + g_vps(enc, basic) + " "
-            + g_vps(enc, memo_ni) + " " + g_vps(enc, [(v, p) for v, p in memo if daglish.is_memoizable(v)
+            + g_vps(enc, memo_ni) + " " + g_vps(enc, [(v, p) for v, p in memo if common.own_memoizable(v)
                                                       and not isinstance(v, type) and not callable(v)
                                                       or isinstance(v, config_lib.Buildable)])
             + " " + g_list(paths_items) + " ")
